@@ -1,0 +1,21 @@
+//go:build verif
+
+package failsafe
+
+import (
+	"time"
+
+	"github.com/failsafe-go/failsafe-go/internal/verifhook"
+)
+
+// VerifSetYield installs a callback invoked at the library's verification yield points. Only available with the verif
+// build tag.
+func VerifSetYield(fn func(point string)) {
+	verifhook.SetYield(fn)
+}
+
+// VerifSetWaitScale installs a function that rescales how long a retry policy actually sleeps for a scheduled delay. Only
+// available with the verif build tag.
+func VerifSetWaitScale(fn func(d time.Duration) time.Duration) {
+	verifhook.SetWaitScale(fn)
+}
